@@ -127,4 +127,27 @@ Proof.
   split; [exact C4|]. rewrite !rget_set_pc. split; [exact R2|]. split; [exact R8|]. split; [exact R1|].
   split; [exact M4|]. split; [exact D4|]. intros r Hr0 N1 N2 N8 N28. rewrite rget_set_pc. apply Ro; assumption.
 Qed.
+
+(* TAMPERED, as a prefix of a run: the first five instructions execute, the branch is NOT taken:
+   the next instruction is the ecall *)
+Theorem fixer_forged_return_prefix s A S s0e forged top rest :
+  pc s = A -> rget s 2 = S - 32 ->
+  S mod 8 = 0 -> 32 <= S < W64 -> stk_lo L <= S - 32 -> S <= stk_hi L ->
+  load_bytes (mem s) (S - 32) 8 = s0e -> load_bytes (mem s) (S - 24) 8 = forged ->
+  0 <= s0e < W64 -> 0 <= forged < W64 -> cfi s = top :: rest -> 0 <= top < W64 ->
+  0 <= A -> A + 28 < W64 ->
+  forged <> top ->
+  exists s', exec_at VFixer L A (firstn 5 fixer_epi_call) s = Next s' /\ pc s' = A + 20 /\ cfi s' = rest /\
+    mem s' = mem s /\ dom s' = dom s.
+Proof.
+  intros Hpc Hsp Hal Hr Hlo Hhi Hl0 Hl1 H0 H1 Hcfi Htop HA0 HA1 Hne.
+  destruct (fixer_epi_prefix s A S s0e forged top rest Hpc Hsp Hal Hr Hlo Hhi Hl0 Hl1 H0 H1 Hcfi)
+    as (s4 & E4 & P4 & R1 & R28 & R2 & R8 & C4 & M4 & D4 & Ro).
+  change (firstn 5 fixer_epi_call) with ([Load LD 8 2 0; Load LD 1 2 8; Iop ADDI 2 2 32; Cfiret 28 0 0] ++ [Branch BEQ 1 28 8]).
+  rewrite exec_at_app, E4. cbn [List.length exec_at]. change (4 * Z.of_nat 4) with 16.
+  rewrite P4, Z.eqb_refl. cbn [exec btaken]. rewrite R1, R28, (u64_small top) by exact Htop.
+  destruct (Z.eqb_spec forged top) as [E|_]; [contradiction|].
+  eexists. split; [reflexivity|]. cbn [set_pc pc cfi mem dom]. rewrite P4.
+  split; [lia|]. split; [exact C4|]. split; [exact M4|exact D4].
+Qed.
 End FT.
